@@ -162,9 +162,15 @@ pub fn build(sc: &Scenario, tag: &str) -> Result<Built, String> {
     if let Some(hop) = holder {
       ins.push(txkit::txin(hop, Witness::new()));
     }
-    // keep the designated value; the holder's 10k becomes fee
-    let tx = txkit::tx(ins, vec![txkit::txout(values[i], w.script_pubkey())]);
-    ops[i] = OutPoint { txid: tx.compute_txid(), vout: 0 };
+    // keep the designated value; the holder's 10k becomes fee. Every second such output sits at vout 1
+    // behind an empty OP_RETURN, so that designated outputs are not all `<txid>:0`
+    let (outs, vout) = if i % 2 == 1 {
+      (vec![txkit::txout(0, Spk::OpReturnData.script()), txkit::txout(values[i], w.script_pubkey())], 1)
+    } else {
+      (vec![txkit::txout(values[i], w.script_pubkey())], 0)
+    };
+    let tx = txkit::tx(ins, outs);
+    ops[i] = OutPoint { txid: tx.compute_txid(), vout };
     txs.push(tx);
   }
   if !txs.is_empty() {
